@@ -146,15 +146,47 @@ Definition capture_other (st : symtab) (pkg ctx : qname) (first : ident) : bool 
 
 Record printed_name := { pn_abs : bool; pn_name : qname }.   (* pn_abs: leading dot *)
 
+(* statementKeywords (fix 5e02f98): words that start another statement, are a label or name a scalar type
+   where a field is declared; a relative type name starting with one of them is printed .full.Name *)
+Definition statement_keywords : list ident :=
+  [ [98;111;111;108] (* bool *);
+    [98;121;116;101;115] (* bytes *);
+    [100;111;117;98;108;101] (* double *);
+    [101;110;117;109] (* enum *);
+    [101;120;116;101;110;100] (* extend *);
+    [101;120;116;101;110;115;105;111;110;115] (* extensions *);
+    [102;105;120;101;100;51;50] (* fixed32 *);
+    [102;105;120;101;100;54;52] (* fixed64 *);
+    [102;108;111;97;116] (* float *);
+    [103;114;111;117;112] (* group *);
+    [105;110;116;51;50] (* int32 *);
+    [105;110;116;54;52] (* int64 *);
+    [109;101;115;115;97;103;101] (* message *);
+    [111;110;101;111;102] (* oneof *);
+    [111;112;116;105;111;110] (* option *);
+    [111;112;116;105;111;110;97;108] (* optional *);
+    [114;101;112;101;97;116;101;100] (* repeated *);
+    [114;101;113;117;105;114;101;100] (* required *);
+    [114;101;115;101;114;118;101;100] (* reserved *);
+    [115;102;105;120;101;100;51;50] (* sfixed32 *);
+    [115;102;105;120;101;100;54;52] (* sfixed64 *);
+    [115;105;110;116;51;50] (* sint32 *);
+    [115;105;110;116;54;52] (* sint64 *);
+    [115;116;114;101;97;109] (* stream *);
+    [115;116;114;105;110;103] (* string *);
+    [117;105;110;116;51;50] (* uint32 *);
+    [117;105;110;116;54;52] (* uint64 *) ].
+Definition is_statement_keyword (c : ident) : bool := existsb (ident_eqb c) statement_keywords.
+
 Definition context_ref_name_safe (st : symtab) (ctx_pkg ctx_path ref_pkg ref_path : qname) : printed_name :=
   if qname_eqb ctx_pkg ref_pkg then
     let short := strip_common ref_path ctx_path in
     let j := (length ref_path - length short)%nat in
-    if capture_same st ctx_pkg ctx_path j (hd [] short)
+    if capture_same st ctx_pkg ctx_path j (hd [] short) || is_statement_keyword (hd [] short)
     then {| pn_abs := true; pn_name := ref_pkg ++ ref_path |}
     else {| pn_abs := false; pn_name := short |}
   else
-    if capture_other st ctx_pkg ctx_path (hd [] ref_pkg)
+    if capture_other st ctx_pkg ctx_path (hd [] ref_pkg) || is_statement_keyword (hd [] ref_pkg)
     then {| pn_abs := true; pn_name := ref_pkg ++ ref_path |}
     else {| pn_abs := false; pn_name := ref_pkg ++ ref_path |}.
 
